@@ -128,6 +128,7 @@ def cmd_check(pid: str, tier: str) -> int:
             violations_out.append({"class": viols[0][0], "replay": path, "message": viols[0][1], "regression": True})
     minimised = 0
     unreproduced: list[str] = []
+    skipped_classes: list[str] = []
     for r in results:
         for cls in sorted(r.viol):
             idx, cnt, msg = r.viol[cls]
@@ -135,6 +136,11 @@ def cmd_check(pid: str, tier: str) -> int:
                 known_hits[cls] = known_hits.get(cls, 0) + cnt
                 continue
             n_viol += 1
+            if len(violations_out) >= 12:
+                # many classes nearly always share few causes: a dozen minimised replays are enough to act on
+                skipped_classes.append(cls)
+                exit_code = 1
+                continue
             scn = r.scn
             case = scn.make_case(seed, idx, tier)
             got = runner.violation_classes(scn, case)
@@ -199,6 +205,8 @@ def cmd_check(pid: str, tier: str) -> int:
         zero = [k for k, v in sorted(r.probes.items()) if v == 0]
         if zero:
             print(f"  warning: probes stuck at zero in {r.scn.name}: {zero}")
+    if skipped_classes:
+        print(f"  {len(skipped_classes)} further violation classes were not minimised (first: {skipped_classes[0]})")
     if unreproduced and exit_code == 0:
         # nothing that can be replayed, yet the pool saw violations: the runs were not independent of one another
         print(f"HARNESS-ERROR property={pid} {len(unreproduced)} violation classes were seen only under state left by earlier runs and none could be reproduced on its own")
